@@ -67,7 +67,7 @@ def with_opts(line, **kw):
     o = dict(p.split("=") for p in f[1].split(","))
     for k, v in kw.items():
         o[k] = str(v)
-    f[1] = ",".join("%s=%s" % (k, o[k]) for k in ("exact", "bom", "profile"))
+    f[1] = ",".join("%s=%s" % (k, o[k]) for k in ("exact", "bom", "profile", "end") if k in o)
     return "\t".join(f)
 
 
